@@ -162,7 +162,7 @@ INGRESS_CORPUS = [
     # seeded C03-b1 (read_from_router's 'gate terminated' exit returned instead of falling into the clean-up): the reload that takes the
     # unit out must withdraw the routes of every session of every router of it - and nothing of the other ingress unit
     "C 0;C 1;C 4;I 0;I 1;I 4;U 0 0 0;U 0 5 0;U 1 0 0;U 4 0 0;R 0 0 0 1 1,2 0 -;R 0 5 0 2 1 0 -;R 1 0 0 3 1 0 -;R 4 0 0 4 1,3 0 -;Q 0 1;J 0;H;Q 0 1;Q 0 2;Q 0 3;JL 0;JL 1",
-    # fixed (C13-removal-unsubscribes-first, 29de9ab): ... also when nobody else is connected and after earlier reloads
+    # fixed (C13-removal-unsubscribes-first, 3f338bb): ... also when nobody else is connected and after earlier reloads
     "C 0;I 0;U 0 0 0;R 0 0 0 1 1 0 -;J 0;H;Q 0 1",
     "C 0;I 0;U 0 0 0;R 0 0 0 1 1 0 -;H;L;J 0;H;Q 0 1;JL 0",
     # the unit comes back (same port / another port): a new unit with an ingress id of its own; the router that returns is a new source,
